@@ -174,6 +174,12 @@ def canon(o):  # noqa: C901
         return ("L", tuple(canon(t) for t in o.terms))
     if isinstance(o, PolyhedralIoContract):
         return ("C", tuple(v.name for v in o.inputvars), tuple(v.name for v in o.outputvars), canon(o.a), canon(o.g))
+    from pacti.iocontract import IoContractCompound, NestedTermList
+
+    if isinstance(o, NestedTermList):
+        return ("N", tuple(canon(t) for t in o.nested_termlist))
+    if isinstance(o, IoContractCompound):
+        return ("CC", tuple(v.name for v in o.inputvars), tuple(v.name for v in o.outputvars), canon(o.a), canon(o.g))
     if isinstance(o, (list, tuple)):
         return ("l", tuple(canon(x) for x in o))
     if isinstance(o, dict):
@@ -203,6 +209,15 @@ def rebuild(c):  # noqa: C901
         return PolyhedralTermList([rebuild(t) for t in c[1]])
     if k == "C":
         return PolyhedralIoContract(rebuild(c[3]), rebuild(c[4]), [Var(n) for n in c[1]], [Var(n) for n in c[2]], simplify=False)
+    if k == "N":
+        from pacti.contracts.polyhedral_iocontract import NestedPolyhedra
+
+        return NestedPolyhedra([rebuild(t) for t in c[1]], force_empty_intersection=False)
+    if k == "CC":
+        from pacti.contracts import PolyhedralIoContractCompound
+
+        return PolyhedralIoContractCompound(assumptions=rebuild(c[3]), guarantees=rebuild(c[4]), input_vars=[Var(n) for n in c[1]],
+                                            output_vars=[Var(n) for n in c[2]])
     if k == "l":
         return [rebuild(x) for x in c[1]]
     if k == "d":
